@@ -4,7 +4,9 @@ import PygVerif.Generated
 
 `Generated.initTable` is produced on every run by *executing* `/repo`'s
 `initialization.initialize` under substituted privileged calls, for all 16
-(tls, chroot, setuid, setgid) combinations and every fault position.  `table_agrees`
+(tls, chroot, setuid, setgid) combinations, every fault position and six failure classes
+(`PermissionError`, `FileNotFoundError`, `KeyError`, `ssl.SSLError`, `RuntimeError` and a private
+`OSError` subclass): a handler that tolerates one class of failure changes the table.  `table_agrees`
 is the correspondence, checked by the kernel: a reordered, swallowed or added call in the
 code changes the table and this theorem stops compiling.  The remaining theorems are about
 the model `Init.run`, for every configuration and every fault position (unbounded index).
@@ -141,22 +143,29 @@ theorem no_fault_completes (c : Cfg) : (run c none).raised = false ∧ (run c no
   simp [run]
 
 /-- no call outside the model's vocabulary (or with unexpected arguments) occurs in the code's table -/
-theorem no_unexpected_calls : ∀ r ∈ Pyg.Generated.initTable, Call.other ∉ r.trace := by
+theorem no_unexpected_calls : ∀ r ∈ Pyg.Generated.initTable, Call.other ∉ r.2.trace := by
   rw [table_agrees]; decide +kernel
 
 /-- corollary on the *code's* table: every row of the executed table satisfies the order -/
-theorem code_rows_ordered : ∀ r ∈ Pyg.Generated.initTable,
+theorem code_rows_ordered : ∀ kr ∈ Pyg.Generated.initTable,
+    let r := kr.2
     before .bind .chroot r.trace ∧ before .bind .setreuid r.trace ∧ before .setgroups .setregid r.trace ∧
     before .setgroups .setreuid r.trace ∧ (r.cfg.setgid → before .setregid .setreuid r.trace) ∧
     (r.cfg.chroot → before .chdirRoot .setreuid r.trace ∧ before .chdirRoot .setregid r.trace) ∧
     (r.fault ≠ none → r.raised = true) := by
   decide +kernel
 
+/-- **Whatever the failure's class.** Every row of the executed table, under each of the six
+    injected failure classes, is the model's `run` of its configuration and fault position: the
+    class of the exception makes no difference to what start-up does (it stops). -/
+theorem fault_class_irrelevant : ∀ kr ∈ Pyg.Generated.initTable, kr.1 < nClasses ∧ kr.2 = run kr.2.cfg kr.2.fault := by
+  rw [table_agrees]; decide +kernel
+
 /-! non-vacuity -/
 example : (run ⟨true, true, true, true⟩ none).trace =
     [.loadKeys, .bind, .getpwnam, .getgrnam, .chroot, .chdirRoot, .setgroups, .setregid, .setreuid] := by decide
 example : (run ⟨false, true, false, true⟩ (some 2)).trace = [.bind, .getgrnam, .chroot] ∧
     (run ⟨false, true, false, true⟩ (some 2)).raised = true := by decide
-example : 90 ≤ Pyg.Generated.initTable.length := by decide
+example : 400 ≤ Pyg.Generated.initTable.length := by decide +kernel
 
 end Pyg.Props.C19
